@@ -144,7 +144,7 @@ def reach_states(word: str) -> bool:
 
 
 # ------------------------------------------------------------------------------------------------
-CONF_NAMES = ["prefix", "list", "nested", "amb", "rec", "uni", "open", "rx1", "rx2", "rxstar", "rxopt"]
+CONF_NAMES = ["prefix", "list", "nested", "amb", "rec", "uni", "open", "rx1", "rx2", "rxstar", "rxopt", "rxuni"]
 CONF_G = {n: load(n) for n in CONF_NAMES} if os.environ.get("VERIF_CONFORM") else {}
 
 
@@ -178,4 +178,5 @@ CONFORMANCE = [
     ("obs_forest", ["rxstar", "aabx"]),
     ("obs_forest", ["rxopt", "xy"]),
     ("obs_forest", ["rxopt", "x7y"]),
+    ("obs_forest", ["rxuni", "a\xe9a!"]),
 ]
